@@ -11,3 +11,27 @@ Theorem C20_english_only_inserts : forall l, Embed (atoms l) (atoms (english l))
 Proof. exact C20_english. Qed.
 Print Assumptions C20_french_only_inserts.
 Print Assumptions C20_english_only_inserts.
+
+(* the second half: every mark ( ! : ; ? and the closing guillemet ) of the French output is protected - before it,
+   skipping variable and argument interpolations, stands a no-break space or a protecting escape (\& or \~): the
+   author's own, or the \~ the function inserted; and right after every opening guillemet stands one.  With
+   C20_french_only_inserts (nothing else is ever added) this is "a mark the author left bare gets exactly its no-break
+   space; one the author protected gets nothing more".  Proofs/TypoSpaced.v. *)
+Require TypoSpaced.
+Import ListNotations.
+Open Scope N_scope.
+Theorem C20_french_marks_protected : forall l pre c post, atoms (fst (french l)) = pre ++ AChar c :: post -> is_mark c = true ->
+  exists q a mid, pre = q ++ a :: mid /\ TypoSpaced.protector a = true /\ forallb TypoSpaced.interp mid = true.
+Proof. exact TypoSpaced.C20_french_marks_protected_spec. Qed.
+Theorem C20_french_guillemet_protected : forall l pre post, atoms (fst (french l)) = pre ++ AChar LGUIL :: post ->
+  exists a rest, post = a :: rest /\ TypoSpaced.protector a = true.
+Proof. exact TypoSpaced.C20_french_guillemet_protected_spec. Qed.
+Print Assumptions C20_french_marks_protected.
+Print Assumptions C20_french_guillemet_protected.
+(* non-vacuity: "a!" gets its space, "a<nbsp>!" and "a\~!" get nothing, "«a" gets one after the guillemet *)
+Example C20_spacing_examples :
+  fst (french [IText [97; 33]]) = [IText [97]; IEsc TILDE; IText [33]] /\
+  fst (french [IText [97; 160; 33]]) = [IText [97; 160; 33]] /\
+  fst (french [IText [97]; IEsc TILDE; IText [33]]) = [IText [97]; IEsc TILDE; IText [33]] /\
+  fst (french [IText [171; 97]]) = [IText [171]; IEsc TILDE; IText [97]].
+Proof. vm_compute. repeat split; reflexivity. Qed.
